@@ -138,6 +138,7 @@ let rec pv (v : val0) =
   | VUnit -> Buffer.add_string buf "U"
   | VTok t -> Buffer.add_string buf ("T" ^ string_of_int (int_of_n t))
   | VNat k -> Buffer.add_string buf ("N" ^ string_of_int (int_of_nat k))
+  | VNum k -> Buffer.add_string buf ("N" ^ string_of_int (int_of_n k))
   | VPair (a, b) -> Buffer.add_string buf "(P "; pv a; Buffer.add_char buf ' '; pv b; Buffer.add_char buf ')'
   | VList l -> Buffer.add_string buf "(L"; List.iter (fun x -> Buffer.add_char buf ' '; pv x) l; Buffer.add_char buf ')'
   | VOpt None -> Buffer.add_string buf "O-"
